@@ -99,7 +99,9 @@ func TestVerifConfKeySpellings(t *testing.T) {
 		var a, b cfConfig
 		ea := LoadFromJsonBytes([]byte(k.json), &a)
 		eb := LoadFromYamlBytes([]byte(k.yaml), &b)
-		c.Eval(fmt.Sprintf("defaults/err=%v", ea != nil), func() any { return map[string]any{"json": k.json, "json_err": fmt.Sprint(ea), "yaml_err": fmt.Sprint(eb)} })
+		c.Eval(fmt.Sprintf("defaults/err=%v", ea != nil), func() any {
+			return map[string]any{"json": k.json, "json_err": fmt.Sprint(ea), "yaml_err": fmt.Sprint(eb)}
+		})
 		if (ea != nil) != k.wantErr || (eb != nil) != k.wantErr {
 			c.Violation(k.json, "required/default", fmt.Sprintf("json err=%v yaml err=%v, want error=%v", ea, eb, k.wantErr))
 		} else if ea == nil && !reflect.DeepEqual(a, b) {
@@ -109,4 +111,107 @@ func TestVerifConfKeySpellings(t *testing.T) {
 		}
 	}
 	c.Done()
+}
+
+// The same struct at every container position (plain, slices, maps, and their nestings up
+// to three levels): a respelled key must load exactly like the canonical spelling.
+type cfNested struct {
+	Plain    cfDB                       `json:",optional"`
+	Ptr      *cfDB                      `json:",optional"`
+	List     []cfDB                     `json:",optional"`
+	ByName   map[string]cfDB            `json:",optional"`
+	Grid     [][]cfDB                   `json:",optional"`
+	Cube     [][][]cfDB                 `json:",optional"`
+	Lists    map[string][]cfDB          `json:",optional"`
+	Grids    map[string][][]cfDB        `json:",optional"`
+	Maps     []map[string]cfDB          `json:",optional"`
+	MapLists []map[string][]cfDB        `json:",optional"`
+	MapOfMap map[string]map[string]cfDB `json:",optional"`
+}
+
+func TestVerifConfNestedSpellings(t *testing.T) {
+	defer vrt.WriteReport()
+	if !vrt.Shard(6) {
+		return
+	}
+	c := vrt.NewCases("conf/key-spellings-at-every-container-position")
+	// position -> JSON wrapper around one object literal %s
+	positions := []struct{ field, wrap string }{
+		{"Plain", `%s`}, {"Ptr", `%s`}, {"List", `[%s]`}, {"ByName", `{"k":%s}`}, {"Grid", `[[%s]]`}, {"Cube", `[[[%s]]]`},
+		{"Lists", `{"k":[%s]}`}, {"Grids", `{"k":[[%s]]}`}, {"Maps", `[{"k":%s}]`}, {"MapLists", `[{"k":[%s]}]`}, {"MapOfMap", `{"k":{"j":%s}}`},
+		{"Grid", `[[],[%s]]`}, {"Cube", `[[[]],[[],[%s]]]`},
+	}
+	toYaml := func(jsonDoc string) string { return jsonDoc } // JSON is a YAML flow document
+	for _, pos := range positions {
+		var want cfNested
+		canonObj := `{"HostName":"h","Port":9}`
+		canonDoc := fmt.Sprintf(`{%q:%s}`, pos.field, fmt.Sprintf(pos.wrap, canonObj))
+		if err := LoadFromJsonBytes([]byte(canonDoc), &want); err != nil {
+			c.Violation(canonDoc, "canonical", err.Error())
+			continue
+		}
+		for _, fieldSp := range spellings(pos.field, snakeOf(pos.field)) {
+			for _, hn := range spellings("HostName", "host_name") {
+				for _, po := range spellings("Port", "port") {
+					obj := fmt.Sprintf(`{%q:"h",%q:9}`, hn, po)
+					doc := fmt.Sprintf(`{%q:%s}`, fieldSp, fmt.Sprintf(pos.wrap, obj))
+					for _, f := range []struct {
+						name string
+						load func([]byte, any) error
+						doc  string
+					}{{"json", LoadFromJsonBytes, doc}, {"yaml", LoadFromYamlBytes, toYaml(doc)}} {
+						var got cfNested
+						var err error
+						var pan any
+						func() {
+							defer func() { pan = recover() }()
+							err = f.load([]byte(f.doc), &got)
+						}()
+						c.Eval(fmt.Sprintf("%s/%s/%s", f.name, pos.field, pos.wrap), func() any {
+							return map[string]any{"format": f.name, "doc": f.doc, "err": fmt.Sprint(err)}
+						})
+						in := fmt.Sprintf("format=%s doc=%s", f.name, f.doc)
+						switch {
+						case pan != nil:
+							c.Violation(in, "panic", fmt.Sprint(pan))
+						case err != nil:
+							c.Violation(in, "respelled key rejected", err.Error())
+						case !reflect.DeepEqual(got, want):
+							c.Violation(in, "respelled key differs", fmt.Sprintf("got %+v, canonical spelling gives %+v", got, want))
+						}
+					}
+				}
+			}
+		}
+		// a required member missing at that position must be reported, whatever the spelling
+		for _, po := range spellings("Port", "port") {
+			doc := fmt.Sprintf(`{%q:%s}`, pos.field, fmt.Sprintf(pos.wrap, fmt.Sprintf(`{%q:9}`, po)))
+			var got cfNested
+			var err error
+			func() {
+				defer func() { recover() }()
+				err = LoadFromJsonBytes([]byte(doc), &got)
+			}()
+			c.Eval("required-missing/"+pos.field, func() any { return map[string]any{"doc": doc, "err": fmt.Sprint(err)} })
+			if err == nil {
+				c.Violation("doc="+doc, "required member", "HostName is absent but the document loaded")
+			}
+		}
+	}
+	c.Done()
+}
+
+func snakeOf(s string) string {
+	var b strings.Builder
+	for i, r := range s {
+		if r >= 'A' && r <= 'Z' {
+			if i > 0 {
+				b.WriteByte('_')
+			}
+			b.WriteRune(r + 32)
+		} else {
+			b.WriteRune(r)
+		}
+	}
+	return b.String()
 }
